@@ -24,6 +24,10 @@
    "zero" = 0), ordinary; fields with a non-None class default: default / falsy / ordinary.
    Titles, revisions, URLs are abstract names; checks/c13.py maps them to real (Unicode) strings.
    "none" stands for an absent optional field.
+   tw = one NEAREST-NEIGHBOUR re-spelling of one string-valued input of the id (base_url,
+   script_extension, login_credentials, titles, subtitle, editor, displaytitle, WikiConf baseurl,
+   license text, source name): one letter's case flipped, a leading / trailing blank, a trailing
+   slash added or removed, NFD instead of NFC.  A different string is a different request: content.
 
    Two kinds of actions: CONTENT edits (append / remove / swap article, change a revision or a
    title, wrap an article in a chapter, set / unset an optional field, add / remove / change a
@@ -45,24 +49,33 @@ CONSTANTS MaxDepth,      \* length of edit paths explored from each seed
           SeedIds,       \* subset of DOMAIN SeedBook
           Emit,          \* TRUE: print seeds and transitions as JSON
           EmitPrefix,    \* marker in front of every printed JSON line
+          TweakDepth,    \* a nearest-neighbour re-spelling may be one of the first TweakDepth edits (0: never)
           OneComponent,  \* TRUE: the wiki coordinates differ from the seed's in at most one component
           IdentMode      \* "content" in the reference; "no-revision" / "with-keyorder" / "host-only"
                          \* re-introduce defect classes (a field left out of the id; unsorted dump
                          \* feeding the id; the URL reduced to its host)
 
-VARIABLES mb, wiki, rep, n, last
-vars == <<mb, wiki, rep, n, last>>
-View == <<mb, wiki, rep>>
+VARIABLES mb, wiki, rep, tw, n, last
+vars == <<mb, wiki, rep, tw, n, last>>
+View == <<mb, wiki, rep, tw>>
 
 None == "none"
 \* wiki coordinates: the values each component can take
 WikiDom == [ scheme |-> {"http", "https"}, user |-> {None, "usr"}, host |-> {"h1", "h2"},
              port |-> {None, "p1", "p2"}, path |-> {"pa", "pb"}, seg |-> {None, "sg"},
-             ext |-> {None, "e1"}, login |-> {None, "l1"} ]
+             ext |-> {None, "empty", "e1"}, login |-> {None, "empty", "l1"} ]
 SeedWiki == [ scheme |-> "http", user |-> None, host |-> "h1", port |-> None, path |-> "pa", seg |-> None,
               ext |-> None, login |-> None ]
 \* in how many components a request's coordinates differ from the seed's
 WDiff(w) == Cardinality({f \in DOMAIN SeedWiki : w[f] # SeedWiki[f]})
+\* NEAREST-NEIGHBOUR re-spellings of ONE string-valued input of the id (content, not representation: a
+\* different string is a different request).  tw = [f, k]: field f is spelled with tweak k; "none": as is.
+NoTweak    == [f |-> None, k |-> None]
+TweakKinds == {"case",     \* the case of one letter flipped
+               "lead",     \* a leading blank added
+               "trail",    \* a trailing blank added
+               "slash",    \* a trailing slash added / removed
+               "nfd"}      \* one non-ASCII letter in NFD instead of NFC
 WikiIdents == {"w1", "w2"}
 BaseUrls   == {"b1", "b2"}
 LicTexts   == {"lw1", "lw2"}
@@ -110,29 +123,32 @@ DropRevs(its) == [i \in DOMAIN its |->
                     IF its[i].k = "a" THEN [its[i] EXCEPT !.rev = None]
                     ELSE IF its[i].k = "x" THEN its[i]
                     ELSE [its[i] EXCEPT !.items = [j \in DOMAIN its[i].items |-> [its[i].items[j] EXCEPT !.rev = None]]]]
-IdentOf(m, w, r) ==
-  CASE IdentMode = "content"       -> <<m, w>>
-    [] IdentMode = "no-revision"   -> <<[m EXCEPT !.items = DropRevs(m.items)], w>>
-    [] IdentMode = "with-keyorder" -> <<m, w, r.keys>>
-    [] IdentMode = "host-only"     -> <<m, [w EXCEPT !.port = None, !.user = None]>>
-Ident == IdentOf(mb, wiki, rep)
+IdentOf(m, w, r, t) ==
+  CASE IdentMode = "content"       -> <<m, w, t>>
+    [] IdentMode = "no-revision"   -> <<[m EXCEPT !.items = DropRevs(m.items)], w, t>>
+    [] IdentMode = "with-keyorder" -> <<m, w, t, r.keys>>
+    [] IdentMode = "host-only"     -> <<m, [w EXCEPT !.port = None, !.user = None], t>>
+    [] IdentMode = "case-blind"    -> <<m, w, IF t.k \in {"case", "lead", "trail"} THEN NoTweak ELSE t>>
+Ident == IdentOf(mb, wiki, rep, tw)
 
 -----------------------------------------------------------------------------
 Init ==
   /\ \E s \in SeedIds : mb = SeedBook[s]
   /\ wiki = SeedWiki
+  /\ tw = NoTweak
   /\ rep = [keys |-> "sorted", indent |-> "compact", ascii |-> TRUE, ser |-> "client", defaults |-> "omit"]
   /\ n = 0
   /\ last = <<"seed", "seed">>
 
 \* every action starts with the conjunct Bounded so that TLC attributes coverage to the action
-Bounded == n < MaxDepth
+\* a tweaked request is a leaf of the edit graph: the tweak is compared with its untweaked neighbour
+Bounded == n < MaxDepth /\ tw = NoTweak
 Content(newmb, label) == /\ mb' = newmb /\ n' = n + 1 /\ last' = <<"content">> \o label
-                         /\ UNCHANGED <<wiki, rep>>
+                         /\ UNCHANGED <<wiki, rep, tw>>
 Coord(neww, label)    == /\ wiki' = neww /\ n' = n + 1 /\ last' = <<"content">> \o label
-                         /\ UNCHANGED <<mb, rep>>
+                         /\ UNCHANGED <<mb, rep, tw>>
 Repr(newrep, label)   == /\ rep' = newrep /\ n' = n + 1 /\ last' = <<"rep">> \o label
-                         /\ UNCHANGED <<mb, wiki>>
+                         /\ UNCHANGED <<mb, wiki, tw>>
 Items(its) == [mb EXCEPT !.items = its]
 IsChap(i) == mb.items[i].k = "c"
 IsArt(i)  == mb.items[i].k = "a"
@@ -255,6 +271,25 @@ EditSource ==                         \* mb.source is <<>> or <<Source>>
                 Content([mb EXCEPT !.source[1].lang = l], <<"EditSource", "language">>)
            \/ Content([mb EXCEPT !.source[1].iw = IF @ = None THEN "i1" ELSE None], <<"EditSource", "interwiki">>)
 
+\* ---- nearest-neighbour re-spelling of one string input (applied as one of the first TweakDepth edits)
+HasText(v) == v \notin {None, "empty"}
+TweakFields ==
+  {"base_url", "title"}
+  \cup (IF HasText(wiki.ext) THEN {"script_extension"} ELSE {})
+  \cup (IF HasText(wiki.login) THEN {"login_credentials"} ELSE {})
+  \cup (IF HasText(mb.subtitle) THEN {"subtitle"} ELSE {})
+  \cup (IF HasText(mb.editor) THEN {"editor"} ELSE {})
+  \cup (IF mb.items # <<>> THEN {"item_title"} ELSE {})
+  \cup (IF mb.items # <<>> /\ mb.items[1].k = "a" /\ HasText(mb.items[1].dt) THEN {"displaytitle"} ELSE {})
+  \cup (IF mb.wikis # <<>> THEN {"wikiconf_baseurl"} ELSE {})
+  \cup (IF mb.licenses # <<>> THEN {"license_wikitext"} ELSE {})
+  \cup (IF mb.source # <<>> THEN {"source_name"} ELSE {})
+Tweak ==
+  /\ Bounded /\ n < TweakDepth
+  /\ \E f \in TweakFields, k \in TweakKinds :
+       /\ tw' = [f |-> f, k |-> k] /\ n' = n + 1 /\ last' = <<"content", "Tweak", f, k>>
+       /\ UNCHANGED <<mb, wiki, rep>>
+
 \* ---- representation edits
 PermuteKeys ==
   /\ Bounded
@@ -275,6 +310,7 @@ SpellDefaults ==                     \* write default-valued fields explicitly /
 Next == \/ AppendArticle \/ AppendInChapter \/ AppendChapter \/ RemoveItem \/ SwapItems
         \/ ChangeRevision \/ ChangeTitle \/ WrapInChapter \/ SetOptional \/ ChangeWiki
         \/ AppendCustom \/ EditWikiConf \/ EditLicense \/ EditSource
+        \/ Tweak
         \/ PermuteKeys \/ ChangeWhitespace \/ ToggleAsciiEscape \/ Reserialise \/ SpellDefaults
 Spec == Init /\ [][Next]_vars
 
@@ -298,15 +334,15 @@ TypeOK ==
 \* oracle sanity, evaluated on every generated transition (ACTION_CONSTRAINT): a representation
 \* edit preserves the identity, a content edit changes it, nothing else happens
 EditLaw ==
-  LET id == IdentOf(mb, wiki, rep)  id2 == IdentOf(mb', wiki', rep') IN
+  LET id == IdentOf(mb, wiki, rep, tw)  id2 == IdentOf(mb', wiki', rep', tw') IN
   /\ Assert(last'[1] \in {"rep", "content"}, "unclassified edit")
   /\ Assert(last'[1] = "rep" => id2 = id, "a representation edit changed the identity")
   /\ Assert(last'[1] = "content" => id2 # id, "a content edit left the identity unchanged")
-  /\ Assert(last'[1] = "rep" => rep' # rep, "a representation edit that changes nothing")
+  /\ Assert(last'[1] = "rep" => rep' # rep /\ tw' = tw, "a representation edit that changes nothing")
 
-State(m, w, r) == [mb |-> m, wiki |-> w, rep |-> r]
+State(m, w, r, t) == [mb |-> m, wiki |-> w, rep |-> r, tw |-> t]
 EmitSeed ==
-  (Emit /\ n = 0) => PrintT(EmitPrefix \o ToJson([seed |-> State(mb, wiki, rep)]))
+  (Emit /\ n = 0) => PrintT(EmitPrefix \o ToJson([seed |-> State(mb, wiki, rep, tw)]))
 EmitEdge ==
-  Emit => PrintT(EmitPrefix \o ToJson([a |-> last', n |-> n', s |-> State(mb, wiki, rep), d |-> State(mb', wiki', rep')]))
+  Emit => PrintT(EmitPrefix \o ToJson([a |-> last', n |-> n', s |-> State(mb, wiki, rep, tw), d |-> State(mb', wiki', rep', tw')]))
 =============================================================================
